@@ -655,4 +655,7 @@ func runC07(c *wk.Ctx) {
 	}
 	// purge probes (ARP / NS / echo) along host-tracking histories, with the universal rules applied to every frame
 	runHostsTx(c)
+	// the DHCP server's replies (and whatever else the stack sends meanwhile) along the DHCP histories of C11/C12: request
+	// lists, capture states, subnets and restarts decide what goes into a reply
+	runDHCP(c)
 }
